@@ -281,3 +281,21 @@ def indexed_equal(conds, is_container, I, value):
                 if isinstance(x, tuple) and x[:1] == ("ucall",) and short(x[2]) in ("operator[]", "at") and len(x[3]) == 1 and strip_casts(x[3][0]) == I and is_container(x[4]) and y == value:
                     return True
     return False
+
+
+def unwrap_entry(path, x):
+    """the content of a one-member entry object (`entry_t{key}` pushed into / searched for in a private container instead of the bare
+    key): the value of its only member; x itself when it is not such an object"""
+    y = x
+    for _ in range(4):
+        if isinstance(y, tuple) and y[:1] in (("var",), ("tmp",)):
+            flds = [(k, v) for k, v in path.state.mem.items() if isinstance(k, tuple) and k[:2] == ("fld", y)]
+            if flds:
+                return flds[0][1] if len(flds) == 1 else x
+            nx = path.state.mem.get(("copyof", y)) or path.state.mem.get(("alias", y))
+            if nx is None:
+                return x
+            y = nx
+        else:
+            return x
+    return x
